@@ -1570,5 +1570,44 @@ def vvreplay(obj):
                 bad += 1
         print("replay: %d failure(s)" % bad)
         return 1 if bad else 0
-    print("replay: nothing executable recorded in this file")
+    # a recorded trace line rejected by a trace specification: validate that line again (it carries what the code returned when
+    # the check ran; re-recording needs the whole check)
+    tl = case.get("trace_line")
+    mod = {"C17": "trace/VNNTrace.tla", "C20": "trace/VAuxTrace.tla", "C14": "trace/VFacesTrace.tla", "C15": "trace/VFacesTrace.tla",
+           "C03": "trace/VTessTrace.tla", "C07": "trace/VTessTrace.tla", "C12": "trace/VTessTrace.tla", "C13": "trace/VTessTrace.tla",
+           "C02": "trace/VTessTrace.tla", "C04": "trace/VTessTrace.tla", "C16": "trace/VTessTrace.tla", "C09": "trace/VParTrace.tla"}.get(obj.get("property"))
+    if isinstance(tl, dict) and mod:
+        ensure_dirs()
+        tf = os.path.join(OUT, "replay_line.ndjson")
+        if obj.get("property") == "C20":
+            tl = dict(tl)
+            tl["pts"] = [[int(round(4 * x)) for x in p] for p in tl["pts"]]
+        with open(tf, "w") as f:
+            f.write(json.dumps(tl) + "\n")
+        cfg = os.path.join(OUT, "tlc", "replay_line.cfg")
+        write_cfg(cfg, spec="TSpec", invariants=["Consumed"], postcondition="TraceAccepted")
+        r = run_tlc(mod, cfg, workers=1, dfs=True, env_extra={"VV_TRACE": tf}, tags=("VERDICT",), timeout=1200)
+        bad = 0
+        for _, v in r.cases:
+            f_ = v.get("failed", [v.get("verdict")] if v.get("verdict") not in (None, "ok") else [])
+            for x in f_:
+                print("TLC ", x)
+                bad += 1
+        print("replay (recorded line re-validated by %s): %d failure(s)" % (mod, bad))
+        return 1 if bad else 0
+    # a vector of the exact predicate / of a geometry helper: replay that one case
+    if isinstance(case.get("case"), dict) and obj.get("property") in ("C19",):
+        ensure_dirs()
+        cf = os.path.join(OUT, "replay_help.ndjson")
+        with open(cf, "w") as f:
+            f.write(json.dumps({"case": case["case"], "expected": case.get("expected")}) + "\n")
+        binp = build_harness()
+        rf = os.path.join(OUT, "replay_help.json")
+        run_harness(binp, ["helpers", "--cases", cf, "--out", rf])
+        res = json.load(open(rf))
+        for f_ in res["failures"][:10]:
+            print("FAIL", f_["what"], json.dumps(f_["detail"]))
+        print("replay: %d failure(s)" % len(res["failures"]))
+        return 1 if res["failures"] else 0
+    print("replay: nothing executable recorded in this file (the case is printed above)")
     return 2
